@@ -1389,6 +1389,70 @@ func (r *c14Run) identicalPayload(hist int) {
 	}
 }
 
+// duplicate payload message: a private transaction whose payload arrives by WritePayload TWICE (two participants answer
+// the payload query) while the payload job of a subscriber is (a) ended by a fatal error, (b) out of retry budget,
+// (c) finished, (d) still retrying. State.WritePayload notifies after the commit only when it saved the event:
+// the duplicate must not call anybody (no call after fatal / after the budget; no second retry loop).
+func (r *c14Run) duplicatePayload(hist int) {
+	h := r.h
+	var private []int
+	for i := range h.pool {
+		a := h.pool[i].attr
+		if a.PAL && !a.Root && a.PType != "foo/bar" {
+			private = append(private, i)
+		}
+	}
+	if len(private) == 0 {
+		return
+	}
+	r.rng.Shuffle(len(private), func(i, j int) { private[i], private[j] = private[j], private[i] })
+	x := private[0]
+	rows := func(o []string, rest string, subs ...int) []c14Beh {
+		var b []c14Beh
+		for _, s := range subs {
+			b = append(b, c14Beh{S: s, R: x, O: append([]string{}, o...), Rest: rest})
+		}
+		return b
+	}
+	all := []int{0, 2, 3, 4}
+	type variant struct {
+		name    string
+		beh     []c14Beh
+		fires   int  // timer firings between the first and the duplicate payload message
+		restart bool // stop + restart before the duplicate
+	}
+	vs := []variant{
+		{"fatal", rows(nil, "fatal", all...), 600, false},
+		{"spent", rows(nil, "fail", all...), 600, false},
+		{"spent-notDone", rows(nil, "notDone", all...), 600, false},
+		{"finished", nil, 600, false},
+		{"retrying", rows([]string{"fail", "notDone", "fail", "fail", "fail"}, "done", all...), 1 + r.rng.Intn(3), false},
+		{"mixed", append(rows(nil, "fatal", 0), rows(nil, "fail", 2, 3, 4)...), 600, false},
+		{"fatal-late", rows([]string{"fail", "fail"}, "fatal", all...), 600, false},
+		{"spent-restart", rows(nil, "fail", all...), 600, true},
+	}
+	quick := os.Getenv("VERIF_TIER") != "thorough"
+	for vi, v := range vs {
+		if quick && (v.name == "spent-notDone" || v.name == "spent-restart" || v.name == "mixed") {
+			continue // the quick tier keeps one budget-spent variant (each costs ~40 stepped timer firings)
+		}
+		r.emit(&c14Op{Op: "reset", NSubs: 5, Hist: hist*100 + vi, Kind: "duplicate-payload-" + v.name, Beh: v.beh})
+		r.emit(&c14Op{Op: "add", Ref: x})
+		r.emit(&c14Op{Op: "wp", Ref: x})
+		r.drain(v.fires)
+		if v.restart {
+			r.emit(&c14Op{Op: "crash"})
+			r.restart()
+			r.drain(600)
+		}
+		r.emit(&c14Op{Op: "wp", Ref: x})
+		r.drain(600)
+		r.emit(&c14Op{Op: "wp", Ref: x})
+		r.drain(600)
+		r.emit(&c14Op{Op: "end"})
+	}
+}
+
 // enumerated stop positions of one short fault-free base history
 func (r *c14Run) enumHistory(hist int, maxVariants int) {
 	h := r.h
@@ -1622,6 +1686,7 @@ func TestVerifC14(t *testing.T) {
 		}
 	}
 	r.identicalPayload(7)
+	r.duplicatePayload(8)
 	for i := 0; i < nBases; i++ {
 		r.enumHistory(i+1, maxVar)
 	}
